@@ -121,11 +121,22 @@ def oracle(c, obs):
         return "the characteristic of %s as served to a controller (its JSON) does not declare what the object declares: %s" % (c["line"], obs.split(" served=")[1][:120])
     if c["kind"] == "acc":
         accs = obs.split(" ")
-        if len(accs) != 22:
+        if len(accs) != 42:
             return "an accessory constructor failed: " + obs[:200]
         bytype = {v["short"].upper(): v for v in metadata()["svc"].values()}
         for a in accs:
-            name, nsvc, nch, svcs = a.split(":", 3)
+            name, nsvc, nch, svcs, vals = a.split(":", 4)
+            want = None
+            if "@" in name:
+                t, lo, hi = [float(x) for x in name.split("@")[1].rsplit(".", 1)[0].split(",")]
+                want = t
+            for v in [x for x in vals.split(",") if x]:
+                ct, rest = v.split("=")
+                val, mn, mx = [num(x) for x in rest.split("/")]
+                if val is not None and (mn is not None and val < mn or mx is not None and val > mx):
+                    return "accessory constructor %s returns characteristic %s with value %s outside its declared range [%s, %s]" % (name.rsplit(".", 1)[0], ct, val, mn, mx)
+                if want is not None and ct.upper() in ("11", "35") and val != want:
+                    return "accessory constructor %s was given the temperature %s (inside the given range) but its characteristic %s holds %s" % (name.rsplit(".", 1)[0], want, ct, val)
             svl = svcs.split("/")
             if not svl or not svl[0].upper().startswith("3E["):
                 return "accessory constructor %s: the first service is not the accessory information service" % name
